@@ -21,10 +21,14 @@ for d in sorted(glob.glob(f"{V}/seeded/*")):
     if os.path.isdir(d) and os.path.exists(d + "/meta.json"):
         m = json.load(open(d + "/meta.json")); name = os.path.basename(d)
         caught = [r for r in m.get("ran_here", []) if r["verdict"] == "violated"]
+        own = [r for r in caught if r["cmd"].split()[2] == m.get("property")]
+        tag = "" if own or not caught else "(by " + ",".join(sorted({r["cmd"].split()[2] for r in caught})) + ") "
         seeded.append((name, m.get("property"), (m.get("summary") or m.get("what") or "")[:150].replace("\n", " ").replace("|", "/"),
-                       "; ".join(sorted({k.split(":")[1] if k.count(":") else k for r in caught for k, _ in r["violation_keys"][:3]}))[:90] if caught else "NOT CAUGHT"))
+                       tag + "; ".join(sorted({k.split(":")[1] if k.count(":") else k for r in (own or caught) for k, _ in r["violation_keys"][:3]}))[:90] if caught else "NOT CAUGHT"))
 ms = (f"{len(seeded)} changes are kept under `seeded/` ({sum(1 for s in seeded if not s[0].startswith('self-'))} from independent sub-agents, the rest reversals/hand-made); "
-      f"{sum(1 for s in seeded if s[3] != 'NOT CAUGHT')} are caught by the quick tier of the property's own check. Full details: `seeded/INDEX.md`.\n\n"
+      f"{sum(1 for s in seeded if s[3] != 'NOT CAUGHT' and not s[3].startswith('(by '))} are caught by the quick tier of the property's own check, "
+      f"{sum(1 for s in seeded if s[3].startswith('(by '))} (concurrency / call-history changes made under another property's name) by the check named in brackets, "
+      f"{sum(1 for s in seeded if s[3] == 'NOT CAUGHT')} by none. Full details: `seeded/INDEX.md`.\n\n"
       "| change | what (abridged) | caught by monitors |\n|---|---|---|\n" + "\n".join(f"| {a} | {c} | {d} |" for a, b, c, d in seeded))
 s = open(f"{V}/DESIGN.md").read()
 def put(tag, text):
